@@ -99,3 +99,22 @@ MODULES += [
      "roots": [("Goldilocks", n) for n in WRAP_AVX512]},
 ]
 
+
+
+def _ext_wrap_roots(ast):
+    names = set()
+    for (cls, name), defs in ast.methods_by_name.items():
+        if cls == "Goldilocks3" and re.search(r"_(batch|avx|avx512)$", name):
+            names.add(name)
+    return [("Goldilocks3", n) for n in sorted(names)]
+
+
+import re
+MODULES += [
+    {"name": "ExtWrap", "ns": "Gen.ExtWrap", "sigs": True,
+     "imports": VEC_IMPORTS + ["GoldilocksVerif.Model.VRegion", "GoldilocksVerif.Gen.Avx2", "GoldilocksVerif.Gen.Avx2Mat", "GoldilocksVerif.Gen.Avx512", "GoldilocksVerif.Gen.Avx512Mat",
+                               "GoldilocksVerif.Gen.PosAvx2", "GoldilocksVerif.Gen.PosAvx512", "GoldilocksVerif.Gen.Ext", "GoldilocksVerif.Gen.WrapBatch",
+                               "GoldilocksVerif.Gen.WrapAvx2", "GoldilocksVerif.Gen.WrapAvx512"],
+     "needs_globals": True, "roots": _ext_wrap_roots,
+     "vregion_regs": 3},      # every vector-region parameter of this module is a planar cubic-extension operand (3 registers)
+]
